@@ -5,8 +5,8 @@
    predictions are data; the run validates their score equations. *)
 From Coq Require Import QArith ZArith List Bool Permutation Sorted.
 From Zepid Require Import Base.QSum Base.QUtil Model.Bounds Spec.WeightSpec Model.Ipw Proofs.IpwProofs
-  GenProofs.GenProofs_weights.
-From ZepidGen Require Import Gen_weights_Q.
+  GenProofs.GenProofs_weights GenProofs.GenProofs_siptw.
+From ZepidGen Require Import Gen_weights_Q Gen_siptw_Q.
 Import ListNotations.
 Open Scope Q_scope.
 
@@ -174,6 +174,23 @@ Proof.
     first [left; reflexivity | right; split; reflexivity].
 Qed.
 
+(* ---- StochasticIPTW.fit in the CURRENT source (translated on every run) is the model the theorems above are about *)
+Theorem C05_src_stochastic_weight : forall r, src_weight r = stoch_weight r.
+Proof. exact gen_siptw_weight. Qed.
+Theorem C05_src_stochastic_unweighted : forall ipw, siptw_ipw_w_Q ipw 1 == ipw.
+Proof. exact gen_siptw_unweighted. Qed.
+Theorem C05_src_stochastic_marginal : forall rows,
+  match all_some (map src_weight rows), stoch_marginal rows with
+  | Some ws, Some m => siptw_marginal_Q (combine ws (map s_y rows)) == m
+  | None, None => True
+  | _, _ => False
+  end.
+Proof. exact gen_siptw_marginal. Qed.
+Theorem C05_src_stochastic_last_condition_decides : forall a cs,
+  fold_left (siptw_numer_step_Q a) cs siptw_numer_start_Q =
+  match last_match cs with Some p => Some (if a then p else 1 - p) | None => None end.
+Proof. exact gen_siptw_last_match. Qed.
+
 Print Assumptions C05_source_unstab_population.
 Print Assumptions C05_source_unstab_exposed.
 Print Assumptions C05_source_unstab_unexposed.
@@ -195,3 +212,7 @@ Print Assumptions C05_ipcw_weight_is_spec_of_input.
 Print Assumptions C05_ipcw_sort_invariant.
 Print Assumptions C05_uncensored_spec.
 Print Assumptions C05_uncensored_of_input.
+Print Assumptions C05_src_stochastic_weight.
+Print Assumptions C05_src_stochastic_unweighted.
+Print Assumptions C05_src_stochastic_marginal.
+Print Assumptions C05_src_stochastic_last_condition_decides.
